@@ -15,6 +15,14 @@ Signature streams (one generated def header)
   inspect: inspect.signature(function object), re-encoded   vs Lean `inspectOf`  (spec validation)
   calls : the same calls (None arguments and well-typed `B()` arguments) checked next to the nested def, for the same def at
           module level of the checked module, and from a module importing the function
+Several modules, one Checker (stream multi): the same def texts in 2-3 generated modules that bind the annotation names
+  (a class, a NewType, a typing alias, a TypeVar) to different objects; the function objects' signatures asked of ONE Checker in
+  both orders and interleaved, compared with each module on a fresh Checker (history independence), with the def-node view and
+  with the Lean model per module environment; importer call verdicts with one Checker vs alone.
+  translate(): the per-Checker caches of arg_spec.py / annotations.py / functions.py (attributes, decorators, key expressions)
+  are regenerated into Generated/ArgSpecCaches.lean and pinned by Props/C13.lean argspec_caches_registered.
+Implementation-only streams: extra (Callable/TypedDict/Protocol/TypeVar forms, Annotated metadata built by a call),
+  methods (parameter kinds of methods with __x parameters, def node vs function object, classes with leading underscores).
 Names: annotations use names through an explicit environment (Lean `NameEnv`): module-level names shadowing a builtin
 (complex, TimeoutError, Warning), builtin-only, module-only, undefined, bound after the defs — quoted, unquoted, under
 `from __future__ import annotations`, in nested / module-level / imported defs.
@@ -67,7 +75,8 @@ RULE = (
     "then seeded random depth <= 3; "
     "expressions typing itself rejects (eval raises) are skipped and counted; def headers: every kind sequence up to 3 parameters with "
     "small annotation/default choices, then seeded random ones with generated annotations, __dunder parameter names and "
-    "`from __future__ import annotations`; per header a fixed family of calls. Non-trivial = the expression has a constructor / the header "
+    "`from __future__ import annotations`; per header a fixed family of calls; the same headers in 2-3 modules binding the names "
+    "differently, checked by one Checker in several orders. Non-trivial = the expression has a constructor / the header "
     "has a parameter; distinct by source text. Callable/TypedDict/Protocol/TypeVar/ParamSpec forms are compared route against route on the "
     "implementation only (stream extra)."
 )
@@ -606,8 +615,8 @@ EXTRA = [
     "Pattern[str]", "ContextManager[int]", "TypeGuard[int]", "NamedTuple", "Hashable", "Sized", "Self",
     "Annotated[int, 'note']", "Annotated[int, 5]",
 ]
-# Annotated[...] whose metadata is a constructor call (known finding annotatedCallMeta: the AST/string route turns the call into
-# TypedValue(cls), which _make_annotated drops; the runtime object keeps the annotated_types constraint)
+# Annotated[...] whose metadata is a constructor call (regression: before 1007ddd the AST/string route turned the call into
+# TypedValue(cls), which _make_annotated dropped, while the runtime object kept the annotated_types constraint)
 EXTRA_META = ["Annotated[int, Gt(5)]", "Annotated[int, Ge(1), Lt(9)]", "Annotated[str, MaxLen(3)]", "List[Annotated[int, Gt(0)]]",
               "Optional[Annotated[int, Gt(5)]]"]
 EXTRA_HEADER = (
@@ -1565,14 +1574,13 @@ def eval_multi(ctx, headers, with_model=True, K=2, tag=""):
     from pyanalyze.value import CallableValue
     if ctx.scratch not in sys.path:
         sys.path.insert(0, ctx.scratch)
+    plans = []
     for future in (False, True):
         hs = [h for h in headers if h["future"] == future]
         B = 120
         for b0 in range(0, len(hs), B):
             batch = hs[b0:b0 + B]
-            _MODCOUNT[0] += 1
             fut = "from __future__ import annotations\n" if future else ""
-            names = ["c13m_%d_%d_%d" % (os.getpid(), _MODCOUNT[0], k) for k in range(K)]
             # defs valid in every module of the group
             okj, defs = [], []
             for j, h in enumerate(batch):
@@ -1585,8 +1593,23 @@ def eval_multi(ctx, headers, with_model=True, K=2, tag=""):
                     continue
                 okj.append(j)
                 defs.append(src)
-            if not okj:
-                continue
+            if okj:
+                plans.append((future, batch, okj, defs))
+    models = [None] * len(plans)
+    if with_model and plans:      # one driver run for the whole stream
+        lines, spans = [], []
+        for future, batch, okj, defs in plans:
+            spans.append(len(lines))
+            for k in range(K):
+                lines += ["sig %s %s" % (mod_env_sexp(k), sexp_hdr(batch[j])) for j in okj]
+        out = [parse_model(l) for l in lean.run_driver("C13", lines)]
+        for pi, (future, batch, okj, defs) in enumerate(plans):
+            models[pi] = out[spans[pi]:spans[pi] + K * len(okj)]
+    for pi, (future, batch, okj, defs) in enumerate(plans):
+        if True:
+            _MODCOUNT[0] += 1
+            fut = "from __future__ import annotations\n" if future else ""
+            names = ["c13m_%d_%d_%d" % (os.getpid(), _MODCOUNT[0], k) for k in range(K)]
             mods = []
             for k in range(K):
                 with open(os.path.join(ctx.scratch, names[k] + ".py"), "w") as f:
@@ -1634,12 +1657,7 @@ def eval_multi(ctx, headers, with_model=True, K=2, tag=""):
                                       "alone %s; interleaved with the other module(s) %s" % (k, alone[k][j], got),
                                       cls=None, conforms=False, stream="multi")
             # the def-node view of each module (nested defs) and the model
-            model = None
-            if with_model:
-                lines = []
-                for k in range(K):
-                    lines += ["sig %s %s" % (mod_env_sexp(k), sexp_hdr(batch[j])) for j in okj]
-                model = [parse_model(l) for l in lean.run_driver("C13", lines)]
+            model = models[pi]
             for k in range(K):
                 src = (fut + mod_header(k)).split("\n")[:-1] + ["def outer():"]
                 where = {}
@@ -1731,7 +1749,7 @@ def eval_multi(ctx, headers, with_model=True, K=2, tag=""):
 def eval_methods(ctx):
     """Kinds of the parameters of methods from the def node (compute_parameters, recorded in-process) vs from the function
     object, for classes whose names do / do not start with underscores (Python strips the class name's leading underscores
-    when it mangles __x; known finding mangledPrivateClass: is_positional_only_arg_name does not)."""
+    when it mangles __x; regression: before b1f1f0a is_positional_only_arg_name did not)."""
     import pyanalyze.name_check_visitor as ncv
     classes = ["Pub", "_Priv", "__Dun", "P_q", "_", "_P__q"]
     methods = ["def m(self, __x: int) -> None: pass", "def n(self, a: int, __b: int = 0, c: int = 1) -> None: pass",
@@ -1762,11 +1780,10 @@ def eval_methods(ctx):
         ctx.count(1, method=1)
         ctx.corr("methods")
         if rec.get(ln) != obj:
-            mangles = c.startswith("_")   # incl. a name of only underscores (not mangled at all, yet the prefix is stripped)
             ctx.candidate({"class": c, "def": lines[ln - 1].strip()},
                           "parameter kinds of %s.%s: %s from the def node, %s from the function object (parameter names %s)"
                           % (c, m, rec.get(ln), obj, list(sig.parameters)),
-                          cls="mangledPrivateClass" if mangles else None, conforms=True, stream="methods")
+                          cls=None, conforms=True, stream="methods")
 
 
 # ------------------------------------------------------------------ extra vocabulary: implementation only
@@ -1797,9 +1814,8 @@ def eval_extra(ctx):
                 return v
             return (_strip_tv(v), n)
         if not (key(a) == key(s) == key(r)):
-            # outside the Lean term language: the class is named by the harness (metadata built by a call)
             ctx.candidate({"expr": E}, "readings differ on %s: ast=%s str=%s rt=%s" % (E, a[0], s[0], r[0]),
-                          cls="annotatedCallMeta" if E in EXTRA_META else None, conforms=True, stream="extra")
+                          cls=None, conforms=True, stream="extra")
 
 
 def _strip_tv(v):
@@ -1871,8 +1887,8 @@ def gen_all(ctx):
     rng = ctx.rng
     anns = exhaustive_terms()
     ctx.extra["exhaustive_part"] = "%d annotation expressions of depth <= 1" % len(anns)
-    anns += depth2_terms(rng, ctx.n(2400, 25000))
-    for _ in range(ctx.n(2000, 40000)):
+    anns += depth2_terms(rng, ctx.n(2000, 25000))
+    for _ in range(ctx.n(1600, 40000)):
         t = gen_term(rng, rng.choice([2, 2, 3]))
         r = rng.random()
         if r < 0.06:
